@@ -175,16 +175,13 @@ TryWithOp(ssize, salign, okf, closk, closn) ==
                    ans2 == IF ns1 >= MaxSlots THEN [i \in 1..FUEL |-> 0] ELSE <<base2>>
                    r2 == IF closk = 0 THEN [ok |-> TRUE, a |-> r1.a, sent |-> r1.sent, reqs |-> <<>>, addr |-> 0, exhausted |-> FALSE]
                          ELSE Alloc(r1.a, r1.sent, closn, 1, ans2, FUEL)
-               IN IF ~r2.ok
-                  THEN \* initialiser panics (out of memory): slot stays reserved
-                       /\ ar' = r2.a /\ sent' = r2.sent /\ heap' = HeapAfter(r2.a)
-                       /\ nslot' = ns1
-                       /\ UNCHANGED <<live, err>>
+               IN IF FALSE THEN UNCHANGED vars
                   ELSE LET took2 == closk # 0 /\ Granted(r2.reqs, ans2) # {}
+                           \* the initialiser uses the fallible flavour and goes without if refused
                            kb == Blk(r2.addr, closn, 1)
-                           r3 == IF closk = 2 THEN Dealloc(r2.a, r2.sent, r2.addr, closn) ELSE [a |-> r2.a, sent |-> r2.sent]
+                           r3 == IF closk = 2 /\ r2.ok THEN Dealloc(r2.a, r2.sent, r2.addr, closn) ELSE [a |-> r2.a, sent |-> r2.sent]
                            slot == Blk(r1.addr, ssize, salign)
-                           kept == IF closk = 1 THEN {kb} ELSE {}
+                           kept == IF closk = 1 /\ r2.ok THEN {kb} ELSE {}
                            fin == IF okf THEN r3 ELSE Rewind(r3.a, r3.sent, rw, r1.addr)
                            \* the same layout requested next
                            again == Alloc(fin.a, fin.sent, ssize, salign, [i \in 1..FUEL |-> 0], FUEL)
@@ -194,7 +191,7 @@ TryWithOp(ssize, salign, okf, closk, closn) ==
                           /\ live' = live \cup kept \cup (IF okf THEN {slot} ELSE {})
                           /\ err' = err \cup AcquireErrs(r1, ans1, ar.lim, TRUE)
                                 \cup NewBlockErrs(slot, r1.a, live)
-                                \cup (IF closk = 1 THEN NewBlockErrs(kb, r2.a, live \cup {slot}) ELSE {})
+                                \cup (IF closk = 1 /\ r2.ok THEN NewBlockErrs(kb, r2.a, live \cup {slot}) ELSE {})
                                 \cup (IF ~okf /\ closk = 0 /\ ~again.ok THEN {"C11.failed-slot-not-reusable"} ELSE {})
                                 \cup (IF ~okf /\ \E o \in live \cup kept : o.size > 0 /\
                                           ~\E i \in 1..Len(fin.a.ch) :
